@@ -18,7 +18,7 @@ def mailbox_programs(tier):
 
     def add(name, cap, scripts, hp=0, tag='q', **kw):
         d = dict(name=name, cap=cap, scripts=scripts, hp=hp, tag=tag, pre=(), started_actions=(), strategy='RestartOnly',
-                 faults=0, max_clock=None, K=None, max_steps=60, started=None, owning=False, registry=False, mt=False, children=(), broker=None, entry=None, fault_targets=None, stream=False, timeout=None, cb_pending=None, loop_bound=None)
+                 faults=0, max_clock=None, K=None, max_steps=60, started=None, owning=False, registry=False, mt=False, children=(), broker=None, entry=None, fault_targets=None, stream=False, timeout=None, cb_pending=None, loop_bound=None, possible=None)
         d.update(kw)
         P.append(d)
     # FIFO across paths and clients, own result, stop barrier
@@ -40,6 +40,8 @@ def mailbox_programs(tier):
     add('force_pileup_bounded1', 1, {'c1': [('call', A, 'a1')], 'c2': [('call', A, 'b1')], 'c3': [('call', A, 'd1'), ('stop', A)]}, 1, K=3)
     # the same families with the capacity left symbolic (n in 0..3, decided by z3 at every comparison)
     add('fifo_mixed_sym', 'sym', {'c1': [('send', A, 'a1'), ('call', A, 'a2')], 'c2': [('send', A, 'b1')]}, 1)
+    add('backpressure_stop_parked_sender0', 0, {'c1': [('send', A, 'a1'), ('send', A, 'a2'), ('send', A, 'a3')], 'c2': [('stop', A)]}, 0, cb_pending={'stopped': 1}, K=2)
+    add('backpressure_stop_parked_senders1', 1, {'c1': [('send', A, 'a1'), ('send', A, 'a2'), ('send', A, 'a3')], 'c2': [('send', A, 'b1'), ('stop', A)]}, 0, cb_pending={'stopped': 1}, K=2)
     add('stop_race_sym', 'sym', {'c1': [('send', A, 'a1'), ('stop', A), ('send', A, 'a2')], 'c2': [('call', A, 'b1')]})
     add('backpressure_sym', 'sym', {'c1': [('send', A, 'a1')], 'c2': [('send', A, 'b1')]}, 1)
     add('backpressure_sym3', 'sym', {'c1': [('send', A, 'a1'), ('send', A, 'a2')], 'c2': [('send', A, 'b1')]}, 1, 't')
@@ -48,6 +50,8 @@ def mailbox_programs(tier):
     # handle programs (C05 / C15 / C14)
     add('handles_caller_only', None, {'c1': [('downgrade', A, 'w'), ('mk_weak_sender', A, 'ws'), ('mk_weak_caller', A, 'wc'), ('mk_caller', A, 'c'), ('drop', A), ('upgrade', 'w'), ('upgrade_sender', 'ws'), ('upgrade_caller', 'wc'), ('caller_call', 'c', 'ctxstop:1')]})
     add('handles_sender_only', None, {'c1': [('downgrade', A, 'w'), ('mk_weak_sender', A, 'ws'), ('mk_weak_caller', A, 'wc'), ('mk_sender', A, 's'), ('drop', A), ('upgrade', 'w'), ('upgrade_sender', 'ws'), ('upgrade_caller', 'wc'), ('sender_send', 's', 'ctxstop:1')]})
+    add('handles_ctx_stop_then_restart', None, {'c1': [('send', A, 'ctxboth:1'), ('send', A, 'a1')]})
+    add('handles_ctx_stop_restart_two_msgs', None, {'c1': [('mk_sender', A, 's'), ('drop', A), ('sender_send', 's', 'ctxstop:1'), ('sender_send', 's', 'ctxrestart:2')]})
     add('handles_sender_restart', None, {'c1': [('mk_sender', A, 's'), ('drop', A), ('sender_send', 's', 'ctxrestart:1'), ('sender_send', 's', 'a1')]})
     add('handles_last_drop_drains', 1, {'c1': [('send', A, 'a1'), ('send', A, 'a2'), ('downgrade', A, 'w'), ('drop', A), ('upgrade', 'w')]}, 1)
     add('handles_upgrade_revives', None, {'c1': [('downgrade', A, 'w'), ('clone', A, 'a2'), ('drop', A), ('upgrade', 'w', 'a3'), ('drop', 'a2'), ('call', 'a3', 'a1'), ('drop', 'a3'), ('upgrade', 'w')]})
@@ -57,8 +61,14 @@ def mailbox_programs(tier):
     add('flags_awaited', None, {'c1': [('clone', A, 'a2'), ('stop', A), ('await', 'a2'), ('stopped', A), ('downgrade', A, 'w'), ('weak_stopped', 'w')]})
     add('flags_during_stopped_hook', None, {'c1': [('stop', A)], 'c2': [('stopped', 'a2'), ('running', 'a2'), ('weak_stopped', 'w')]}, pre=(('clone', A, 'a2'), ('downgrade', A, 'w')), cb_pending={'stopped': 1}, K=3)
     add('flags_weak_after_last_drop', None, {'c1': [('send', A, 'a1'), ('send', A, 'a2'), ('downgrade', A, 'w'), ('drop', A), ('weak_stopped', 'w'), ('weak_stopped', 'w')]}, 1)
+    add('restart_then_last_drop', None, {'c1': [('send', A, 'a1'), ('restart', A), ('send', A, 'a2'), ('drop', A)]})
+    add('restart_then_last_drop_bounded', 1, {'c1': [('restart', A), ('send', A, 'a1'), ('send', A, 'a2'), ('drop', A)]}, 1)
     add('halt_after_failure', None, {'c1': [('clone', A, 'a2'), ('await', 'a2'), ('halt', A)]}, started={1: 'err'})
     add('flags_failed_start', None, {'c1': [('clone', A, 'a2'), ('await', 'a2'), ('stopped', A), ('running', A), ('downgrade', A, 'w'), ('weak_stopped', 'w'), ('call', A, 'a1')]}, started={1: 'err'})
+    add('await_twice_after_failure', None, {'c1': [('clone', A, 'a2'), ('clone', A, 'a3'), ('await', 'a2'), ('await', 'a3'), ('stopped', A), ('await', A)]}, started={1: 'err'})
+    add('await_two_clients_after_failure', None, {'c1': [('await', A)], 'c2': [('await', A), ('await', A)]}, started={1: 'err'})
+    add('flags_after_mut_await', None, {'c1': [('stop', A), ('await_mut', A), ('stopped', A), ('running', A), ('downgrade', A, 'w'), ('weak_stopped', 'w'), ('clone', A, 'a2'), ('stopped', 'a2'), ('await', 'a2'), ('await_mut', A)]})
+    add('flags_after_mut_await_failed', None, {'c1': [('await_mut', A), ('stopped', A), ('clone', A, 'a2'), ('running', 'a2'), ('await', 'a2')]}, started={1: 'err'})
     add('flags_killed', None, {'c1': [('ping', A), ('clone', A, 'a2'), ('await', 'a2'), ('stopped', A), ('running', A)]}, faults=1, K=2)
     # failure containment (C06 / C02): the actor task is cancelled at any step / a handler panics
     add('kill_with_pending_call', None, {'c1': [('call', A, 'a1'), ('call', A, 'a2')], 'c2': [('await', A)]}, 1, faults=1, K=2)
@@ -69,6 +79,7 @@ def mailbox_programs(tier):
     add('timers_mixed_drop', None, {'c1': [('drop', A)]}, started_actions=(('interval', 'tick', 2), ('delayed_send', 'ds', 3)), max_clock=6, K=2, max_steps=24)
     add('timers_weak_upgrade_after_drop', None, {'c1': [('ping', A), ('downgrade', A, 'w'), ('mk_weak_sender', A, 'ws'), ('drop', A), ('upgrade', 'w'), ('upgrade_sender', 'ws')]}, started_actions=(('interval', 'tick', 2),), max_clock=4, K=2, max_steps=24)
     add('timers_interval_with_bounded', 1, {'c1': [('send', A, 'a1'), ('stop', A)]}, 1, started_actions=(('interval_with', 'tw', 1),), max_clock=2, K=1, max_steps=20)
+    add('timers_delayed_exec_last_drop', None, {'c1': [('ping', A), ('drop', A)]}, started_actions=(('delayed_exec', 'de', 2), ('interval', 'tick', 1)), max_clock=3, K=1, max_steps=20)
     add('timers_delayed_exec_kill', None, {'c1': [('ping', A)]}, started_actions=(('delayed_exec', 'de', 2), ('interval', 'tick', 1)), max_clock=3, K=1, faults=1, max_steps=20)
     add('timers_handler_panics', None, {'c1': [('call', A, 'panic:1')]}, started_actions=(('delayed_exec', 'de', 2), ('interval', 'tick', 1)), max_clock=3, K=1, max_steps=20)
     add('timers_restart_delayed_send', None, {'c1': [('restart', A), ('ping', A)]}, started_actions=(('delayed_send', 'ds', 3),), max_clock=5, K=2, max_steps=20)
@@ -98,10 +109,16 @@ def mailbox_programs(tier):
         h = 'addr' if not ep.endswith('owning') else 'a'
         pre_ops = [('entry', ep)] + ([('to_addr', 'o', 'a')] if ep.endswith('owning') else [])
         add('timeout_' + ep, None, {'c1': pre_ops + [('call', h, 'hang:1'), ('call', h, 'a2'), ('stop', h)]}, 0, entry=ep, timeout=(1, False), max_clock=3, K=1, max_steps=30)
+    add('timeout_none_but_fail_flag', None, {'c1': [('call', A, 'a1'), ('call', A, 'a2')]}, 1, timeout=(None, True), max_clock=12, K=1, max_steps=24)
     add('timeout_none_configured', None, {'c1': [('sleep', 2), ('call', A, 'a1')]}, 1, max_clock=4, K=1, max_steps=20, tag='t')
     # stream-attached actors (C13; also C03 lifecycle with finished): the stream is a queue fed by a producer task
     add('stream_items_then_end', None, {'prod': [('feed', 'i1'), ('feed', 'i2'), ('end_stream',)], 'c1': [('call', A, 'a1'), ('await', A)]}, stream=True, K=1, strategy='NonRestartable')
     add('stream_stop_never_ends', None, {'prod': [('feed', 'i1')], 'c1': [('send', A, 'a1'), ('stop', A), ('await', A)]}, stream=True, K=2, strategy='NonRestartable')
+    add('stream_timeout_slow_item', None, {'prod': [('feed', 'i1'), ('feed', 'i2'), ('end_stream',)], 'c1': [('await', A)]}, stream=True, timeout=(1, False), cb_pending={'stream': 1}, max_clock=3, K=1, strategy='NonRestartable', max_steps=30)
+    # a stream that is ready at every poll must not starve the mailbox: SOME schedule resolves the call (program-level
+    # possibility check, see `possible`); exploration is cut by max_steps, the stream never ends
+    add('stream_always_ready_call', None, {'c1': [('call', A, 'a1')]}, stream='repeat', cb_pending={'stream': 1}, K=1, strategy='NonRestartable', max_steps=8,
+        possible=('call', 'Ok', 'a call to an actor whose stream is always ready is answered in no explored schedule: the stream starves the mailbox'))
     add('stream_last_drop', None, {'prod': [('feed', 'i1'), ('feed', 'i2')], 'c1': [('send', A, 'a1'), ('drop', A)]}, stream=True, K=1, strategy='NonRestartable')
     add('stream_pending_handlers_bounded', 1, {'prod': [('feed', 'i1'), ('end_stream',)], 'c1': [('send', A, 'a1'), ('send', A, 'a2')]}, 1, stream=True, K=2, strategy='NonRestartable', tag='t')
     add('own_timeout_slow_stopped', None, {'c1': [('entry', 'build_timeout_spawn_owning'), ('to_addr', 'o', 'a'), ('call', 'a', 'a1'), ('stop', 'a'), ('join', 'o')]},
@@ -116,6 +133,7 @@ def mailbox_programs(tier):
     add('own_join_twice_failed_start', None, {'c1': [('join', O), ('join', O)]}, owning=True, started={1: 'err'})
     add('own_join_twice_after_panic', None, {'c1': [('o_call', O, 'panic:1'), ('join', O), ('join', O)]}, owning=True)
     add('own_join_failed_restart', None, {'c1': [('o_call', O, 'a1'), ('to_addr', O, 'a'), ('restart', 'a'), ('call', 'a', 'a2'), ('join', O), ('join', O)]}, owning=True, started={2: 'err'})
+    add('own_join_only_handle', None, {'c1': [('to_addr', O, 'a'), ('downgrade', 'a', 'w'), ('drop', 'a'), ('mk_join', O, 'j1'), ('poll_once', 'j1'), ('upgrade', 'w', 'a2'), ('call', 'a2', 'a1'), ('stop', 'a2'), ('await_fut', 'j1')]}, owning=True)
     add('own_join_failed_start', None, {'c1': [('join', O)]}, owning=True, started={1: 'err'})
     add('own_consume', 1 if False else None, {'c1': [('o_send', O, 'a1'), ('consume', O)]}, owning=True)
     add('own_detach', None, {'c1': [('detach', O, 'a'), ('call', 'a', 'a1'), ('downgrade', 'a', 'w'), ('drop', 'a'), ('upgrade', 'w')]}, owning=True)
@@ -201,6 +219,8 @@ def evaluate(tr, status, cap, scripts, spec=None):
     if spec is not None and spec.get('registry'):
         reg = oracle_registry(tr, status, scripts)
         out['C08'] += reg
+        # C14: "on-demand respawn, register-if-stopped, try_from_registry react to a termination nobody awaited"
+        out['C14'] += [m for m in reg if 'terminated instance' in m or 'alive: False' in m]
         if spec.get('faults'):
             # C06: the registry treats a service whose task died as not running
             out['C06'] += reg
@@ -253,6 +273,14 @@ def evaluate(tr, status, cap, scripts, spec=None):
         cont = oracle_containment(tr, status, scripts)
         out['C06'] += cont
         out['C02'] += [m for m in cont if 'awaiting the address' in m]      # awaits resolve with the termination result
+        out['C04'] += [m for m in cont if 'awaiting the address' in m or 'await issued after' in m]   # Ok exactly when graceful
+        if any(op[0] == 'restart' for sc in scripts.values() for op in sc):
+            # C07: what was accepted after the restart request is handled by the incarnation after it
+            out['C07'] += [m for m in c05 if 'was accepted but not handled' in m]
+        if spec['started_actions']:
+            # C05: termination by the last drop is the same as after stop - every timer ends with the actor
+            if any(op[0] == 'drop' for sc in scripts.values() for op in sc):
+                out['C05'] += [m for m in out['C10'] if 'after the actor had terminated' in m or 'was not aborted' in m]
         if spec.get('owning'):
             out['C17'] += oracle_owning(tr, status, scripts)
         if spec.get('registry'):
@@ -289,7 +317,7 @@ def make_program(functions, enums, repo, spec, spawner=None):
     else:
         cls = RegistryProgram if spec['registry'] else MailboxProgram
         p = cls(sy, cap, scripts, handler_pending=hp, max_steps=spec['max_steps'], pre=pre)
-        p.stream = bool(spec.get('stream'))
+        p.stream = spec.get('stream') or False
         p.timeout_cfg = spec.get('timeout')
     p.faults = spec['faults']
     if spec.get('fault_targets'):
@@ -328,6 +356,7 @@ def run(functions, enums, repo, tier, max_steps=60, seed=0, validate=None):
         n = 0
         reservoir = []
         first_witness = {}
+        possible_seen, possible_witness = False, None
 
         def leaves():
             # an unsupported construct met in one program makes the run inconclusive but does not hide what the
@@ -372,6 +401,13 @@ def run(functions, enums, repo, tier, max_steps=60, seed=0, validate=None):
             ev = evaluate(tr, leaf.status, cap, scripts, spec)
             for pid, msgs in ev.items():
                 add(pid, msgs)
+            if spec.get('possible'):
+                kind, pref, _why = spec['possible']
+                from prog_mailbox import _ops
+                if any(o['kind'] == kind and o['end'] is not None and str(o['result']).startswith(pref) for o in _ops(tr)):
+                    possible_seen = True
+                elif possible_witness is None:
+                    possible_witness = (leaf, tr)
             if cap == 'sym':
                 # behind(n): ask z3 whether some capacity on this path is exceeded
                 behind = oracle_backpressure(tr, None if cap is None else 10 ** 6, scripts, want_counts=True)
@@ -382,6 +418,11 @@ def run(functions, enums, repo, tier, max_steps=60, seed=0, validate=None):
             distinct.add(hash((name, tuple(tr))))
             if len(stats['samples']) < 8 and n % 53 == 1:
                 stats['samples'].append({'program': name, 'capacity': str(cap), 'status': leaf.status, 'trace': [list(map(str, e)) for e in tr][:60]})
+        if spec.get('possible') and not possible_seen and possible_witness is not None and not any(u.startswith(name + ':') for u in stats.get('unsupported', [])):
+            # a possibility ("in SOME schedule the call is answered") that no explored schedule realises: starvation
+            lf, ptr = possible_witness
+            for pid in ('C02', 'C13'):
+                results[pid].append(dict(prog=name, cap=str(cap), msg=spec['possible'][2] + f" ({n} schedules explored)", trace=ptr, choices=[]))
         # ---- native validation: replay sampled schedules on the real crates, poll by poll
         for leaf, tr in reservoir:
             ncap = cap
